@@ -429,6 +429,11 @@ func (v *CompositeValue) Destroy(context ResourceDestructionContext) {
 	// default destroy event constructors are encoded as functions on the resource (with an unrepresentable name)
 	// so that we can leverage existing atree encoding and decoding. However, we need to make sure functions are initialized
 	// if the composite was recently loaded from storage
+	//
+	// The program which declares the composite might not have been loaded yet,
+	// so ensure it is loaded before looking up the functions.
+	contextForLocation := context.GetResourceDestructionContextForLocation(v.Location)
+
 	if v.Functions == nil {
 		v.Functions = context.GetCompositeValueFunctions(v)
 	}
@@ -448,8 +453,6 @@ func (v *CompositeValue) Destroy(context ResourceDestructionContext) {
 	context.WithResourceDestruction(
 		valueID,
 		func() {
-			contextForLocation := context.GetResourceDestructionContextForLocation(v.Location)
-
 			// destroy every nested resource in this composite; note that this iteration includes attachments
 			v.ForEachField(
 				contextForLocation,
